@@ -48,6 +48,8 @@ type Case struct {
 	Bulky bool
 	// Verbosity is the process-wide klog -v level (debug logging must not change what is stored or served)
 	Verbosity int
+	// Burst > 0 (concurrent variant): after the run that many readers ask for the first entries at the same time
+	Burst int
 }
 
 // genSpec draws chain specs from a small space so that issuers repeat (chains de-duplicate in storage).
@@ -279,7 +281,7 @@ func newRig(t *testing.T, c Case) *rig {
 	if err != nil {
 		t.Fatalf("indirect: %v", err)
 	}
-	r.indirect.Watchdog = 30 * time.Second // honest requests take milliseconds; only a deadlock reaches this
+	r.indirect.Watchdog = 120 * time.Second // honest requests take milliseconds, seconds on a very busy machine; only a deadlock reaches this
 	return r
 }
 
@@ -831,6 +833,9 @@ var Sequential = harness.Define(harness.Opts{
 func genConc(t *rapid.T) Case {
 	c := genCase(t, false)
 	c.Workers = rapid.IntRange(2, 5).Draw(t, "workers")
+	if rapid.IntRange(0, 2).Draw(t, "burst") == 0 {
+		c.Burst = rapid.SampledFrom([]int{40, 90, 140}).Draw(t, "readers")
+	}
 	return c
 }
 
@@ -942,6 +947,46 @@ func checkConc(t *testing.T, c Case) (v harness.Verdict) {
 	r.sc.mu.Lock()
 	r.sc.forgetEvery = 1 // the cache has forgotten everything: every chain must come from storage now
 	r.sc.mu.Unlock()
+	if size := r.beI.Size(); c.Burst > 0 && size > 0 {
+		// a burst of readers at once against a storage that takes a millisecond per look-up; a quarter of them give
+		// up early (their client went away). Every reader that stays must be served, whatever its neighbours do.
+		r.store.FailAdd, r.store.AddLatency = nil, 0
+		r.store.Latency = time.Millisecond
+		// the front end derives the deadline of storage calls from its clock: a storage that honours contexts
+		// needs that clock to be the real one
+		r.clock.Set(time.Now())
+		wd := r.indirect.Watchdog
+		r.indirect.Watchdog = 0 // hundreds of requests at once may be slow; nothing here is judged by the clock
+		var bw sync.WaitGroup
+		for g := 0; g < c.Burst; g++ {
+			bw.Add(1)
+			go func(g int) {
+				defer bw.Done()
+				start := g % min(size, 3)
+				ctx, cancel := context.WithCancel(context.Background())
+				defer cancel()
+				leaves := g%4 == 0
+				if leaves {
+					go func() { time.Sleep(time.Duration(100+g*7%400) * time.Microsecond); cancel() }()
+				}
+				rsp := r.indirect.Do(ctx, "GET", "/ct/v1/get-entries", fmt.Sprintf("start=%d&end=%d", start, start), nil)
+				if leaves || !accepted[string(r.beI.Leaf(start).LeafValue)] {
+					return
+				}
+				vmu.Lock()
+				defer vmu.Unlock()
+				if rsp.Status != 200 {
+					v.Failf("live-reader-refused-in-burst", "one of %d concurrent readers of entry %d (its own request alive, storage healthy but slow) was answered %d %q", c.Burst, start, rsp.Status, trunc(rsp.Body))
+					return
+				}
+				r.judgeAlone(&v, rsp, start)
+			}(g)
+		}
+		bw.Wait()
+		r.indirect.Watchdog = wd
+		r.store.Latency = 0
+		v.Class(fmt.Sprintf("reader-burst:%d", c.Burst))
+	}
 	for start := 0; start < r.beI.Size(); start++ {
 		rsp := r.indirect.Get("/ct/v1/get-entries", fmt.Sprintf("start=%d&end=%d", start, start))
 		if rsp.Status != 200 && accepted[string(r.beI.Leaf(start).LeafValue)] {
